@@ -148,10 +148,18 @@ def gen_cases(rng, tier):
     return cases
 
 
+MULTI_VALUED = ["({1: 2} | {1: 3})", "(({1: 1} | {1: 2} | {1: 3}) without (@: 1, @value: 3))"]
+
+
 def signature(c, o):
     st = o.get("st")
     if o.get("slow_error_text"):
         return "hang:parse-error-text"
+    if st == "panic" and o.get("site") == "rel:(*DictEnumerator).Current":
+        # the open finding is about dicts that hold several values under one key at the point of use; the same
+        # panic on a dict that is single-valued (again) is a different defect
+        multi = c["stream"].startswith("witness:") or any(m in c["src"] for m in MULTI_VALUED)
+        return "panic:rel:(*DictEnumerator).Current" if multi else "panic:rel:(*DictEnumerator).Current:single-valued-dict"
     if st == "panic":
         if "makeslice" in (o.get("msg") or ""):
             return "panic:makeslice"      # an allocation sized by an index span, wherever it is asked for
